@@ -28,6 +28,11 @@ func (server *Server) Set(conn *redis.Conn, key string, val string, opt redis.Se
 
 	var oldVal []byte
 	hasOldRecord := false
+	if opt.XX {
+		if !db.HasRecord(key) {
+			return redis.NewNilMessage(), nil
+		}
+	}
 	if opt.NX || opt.GET {
 		var currRecord *Record
 		currRecord, hasOldRecord = db.GetRecord(key)
